@@ -1128,7 +1128,14 @@ class NestedPipeFunc(PipeFunc):
             "resources": self.resources,
         }
         kwargs.update(update)
-        return NestedPipeFunc(**kwargs)  # type: ignore[arg-type]
+        f = NestedPipeFunc(**kwargs)  # type: ignore[arg-type]
+        if "renames" not in update:
+            # Keep the defaults and bound values set with `update_defaults`/`update_bound`
+            f._defaults = self._defaults.copy()
+            f._bound = self._bound.copy()
+            f._clear_internal_cache()
+            f._validate()
+        return f
 
     def _combine_mapspecs(self) -> MapSpec | None:
         mapspecs = [f.mapspec for f in self.pipeline.functions]
